@@ -239,6 +239,36 @@ def _task(args):
                 first = False
             if sample is None and combo and any(ddef.fields[i].pk for i in combo if i < len(ddef.fields)):
                 sample = {"pgn": defn.pgn, "definition": m.id, "payload_hex": p.to_bytes(n, "little").hex(), "key": list(k[1]), "hash": m.hash}
+    # the hash is the same whatever the logging configuration of the process (DEBUG logging evaluates more code)
+    import logging
+    root = logging.getLogger()
+    old_level, old_disable = root.level, logging.root.manager.disable
+    nh = logging.NullHandler()
+    try:
+        logging.disable(logging.NOTSET)
+        root.addHandler(nh)
+        root.setLevel(logging.DEBUG)
+        for nm in ("nmea2000", "nmea2000.message", "nmea2000.decoder"):
+            logging.getLogger(nm).setLevel(logging.DEBUG)
+        for di in idxs:
+            defn = db.defs[di]
+            if not any(f.pk for f in defn.fields):
+                continue
+            for bname in ("mid", "max"):
+                p, n = payloads.build(defn, payloads.base_assignment(defn, bname))
+                m = dec_line(A, defn.pgn, p, n)
+                st["variants"] += 1
+                if m is None or not isinstance(m.hash, str):
+                    continue
+                k = key_of(db.by_id.get((m.PGN, m.id), defn), m)
+                if k in k2h and k2h[k] != m.hash:
+                    v("hash_depends_on_context", defn, p, n, f"with DEBUG logging enabled the key {k} hashes to {m.hash}, with logging off to {k2h[k]}", {"variant": "logging level DEBUG"})
+    finally:
+        root.removeHandler(nh)
+        root.setLevel(old_level)
+        for nm in ("nmea2000", "nmea2000.message", "nmea2000.decoder"):
+            logging.getLogger(nm).setLevel(logging.NOTSET)
+        logging.disable(old_disable)
     n_late, v_late = late_unclaimed(db, seed, idxs[:6])
     st["variants"] += n_late
     vios += v_late
